@@ -314,7 +314,7 @@ Definition vis_after (e : bevent) (t : nat) (old : list N) : list N :=
   match e with
   | BGet t' _ _ => if t' =? t then [] else old
   | BAppend t' d => if t' =? t then old ++ d else old
-  | BResize t' n => if t' =? t then firstn n old ++ repeat 0%N (n - length old) else old
+  | BResize t' n | BResizeKeep t' _ n => if t' =? t then firstn n old ++ repeat 0%N (n - length old) else old
   | BPut t' => if t' =? t then [] else old
   end.
 
@@ -329,7 +329,7 @@ Lemma bstep_ok v mincap s e s' :
   BInv s' /\ forall t, visible s' t = vis_after e t (visible s t).
 Proof.
   intros [Hlt Huq Hplt Hsep] [Hch Hcp] Hgr Hst.
-  destruct e as [t0 capacity c|t0 data|t0 n|t0]; cbn [bstep] in Hst.
+  destruct e as [t0 capacity c|t0 data|t0 n|t0 t1 n|t0]; [| | |destruct Hgr|]; cbn [bstep] in Hst.
   - (* BGet *)
     destruct (b_held s t0) eqn:Eh; [discriminate|].
     destruct (match c with Some b => find (has_buf b) (b_pool s) | None => None end) as [sl|] eqn:Ef;
@@ -492,7 +492,7 @@ Lemma bstep_clean v mincap s e s' :
   BInv s -> Clean s -> grows s e -> bstep v mincap s e = Some s' -> Clean s'.
 Proof.
   intros [Hlt Huq Hplt Hsep] [Hch Hcp] Hgr Hst.
-  destruct e as [t0 capacity c|t0 data|t0 n|t0]; cbn [bstep] in Hst.
+  destruct e as [t0 capacity c|t0 data|t0 n|t0 t1 n|t0]; [| | |destruct Hgr|]; cbn [bstep] in Hst.
   - destruct (b_held s t0) eqn:Eh; [discriminate|].
     destruct (match c with Some b => find (has_buf b) (b_pool s) | None => None end) as [sl|] eqn:Ef;
       inversion Hst; subst; clear Hst.
@@ -585,17 +585,6 @@ Record OwnZ (W : nat -> list N) (s : bstate) : Prop := mkOwnZ {
                           b_heap s (sl_buf sl) j = 0%N \/ In (b_heap s (sl_buf sl) j) (W t)
 }.
 
-Definition w_after (e : bevent) (t : nat) (old : list N) : list N :=
-  match e with
-  | BGet t' _ _ => if t' =? t then [] else old
-  | BAppend t' d => if t' =? t then old ++ d else old
-  | BResize _ _ => old
-  | BPut t' => if t' =? t then [] else old
-  end.
-
-Lemma written_step t e es acc : written t (e :: es) acc = written t es (w_after e t acc).
-Proof. destruct e; reflexivity. Qed.
-
 Lemma wr_zero_cases l j :
   wr (fun _ => 0%N) 0 l j = 0%N \/ In (wr (fun _ => 0%N) 0 l j) l.
 Proof.
@@ -611,14 +600,14 @@ Qed.
 
 Lemma bstep_ownz mincap W s e s' :
   BInv s -> OwnZ W s -> bstep Fixed mincap s e = Some s' ->
-  OwnZ (fun t => w_after e t (W t)) s'.
+  OwnZ (w_after e W) s'.
 Proof.
   intros [Hlt Huq Hplt Hsep] [Hcap Hown] Hst.
   assert (Hold : forall sl x, b_held s = b_held s -> forall t, b_held s t = Some sl ->
                  In x (rd (b_heap s (sl_buf sl)) 0 (sl_len sl)) -> x = 0%N \/ In x (W t)).
   { intros sl x _ t E Hin. apply in_rd in Hin. destruct Hin as [j [Hj ->]].
     eapply Hown; [exact E|]. pose proof (Hcap _ _ E). lia. }
-  destruct e as [t0 capacity c|t0 data|t0 n|t0]; cbn [bstep] in Hst.
+  destruct e as [t0 capacity c|t0 data|t0 n|t0 t1 n|t0]; cbn [bstep] in Hst.
   - destruct (b_held s t0) eqn:Eh; [discriminate|].
     destruct (match c with Some b => find (has_buf b) (b_pool s) | None => None end) as [sl|] eqn:Ef;
       inversion Hst; subst; clear Hst.
@@ -633,7 +622,7 @@ Proof.
            left. unfold zero_prefix, clear_upto.
            assert (E1 : (j <? Nat.max (sl_len sl) (sl_cap sl)) = true) by (apply Nat.ltb_lt; lia).
            rewrite E1. reflexivity.
-        -- intros E Hj. rewrite (proj2 (Nat.eqb_neq t0 t)) by congruence.
+        -- intros E Hj. rewrite ?(upd_other W t0 t) by assumption.
            rewrite upd_other; [eapply Hown; eassumption|].
            intro E3. eapply Hsep; [exact E | exact Hin | symmetry; exact E3].
     + constructor; cbn [b_heap b_pool b_held w_after].
@@ -642,7 +631,7 @@ Proof.
         -- apply Hcap.
       * intros t sl1 j. upd_cases t t0.
         -- intros E Hj. inversion E; subst. cbn [sl_buf]. rewrite upd_same. left. reflexivity.
-        -- intros E Hj. rewrite (proj2 (Nat.eqb_neq t0 t)) by congruence.
+        -- intros E Hj. rewrite ?(upd_other W t0 t) by assumption.
            rewrite upd_other; [eapply Hown; eassumption|]. apply Hlt in E. lia.
   - destruct (b_held s t0) as [sl|] eqn:Eh; [|discriminate].
     destruct (sl_len sl + length data <=? sl_cap sl) eqn:Efit; inversion Hst; subst; clear Hst.
@@ -652,12 +641,12 @@ Proof.
         -- intro E. inversion E; subst. cbn. exact Efit.
         -- apply Hcap.
       * intros t sl1 j. upd_cases t t0.
-        -- intros E Hj. inversion E; subst. cbn [sl_buf sl_cap] in *. rewrite upd_same, Nat.eqb_refl.
+        -- intros E Hj. inversion E; subst. cbn [sl_buf sl_cap] in *. rewrite ?upd_same.
            unfold wr. destruct ((sl_len sl <=? j) && (j <? sl_len sl + length data)) eqn:Ec.
            ++ right. apply in_or_app. right. apply andb_true_iff in Ec. destruct Ec as [E1 E2].
               apply Nat.leb_le in E1. apply Nat.ltb_lt in E2. apply nth_In. lia.
            ++ destruct (Hown _ _ j Eh Hj) as [H0|H0]; [left; exact H0 | right; apply in_or_app; left; exact H0].
-        -- intros E Hj. rewrite (proj2 (Nat.eqb_neq t0 t)) by congruence.
+        -- intros E Hj. rewrite ?(upd_other W t0 t) by assumption.
            rewrite upd_other; [eapply Hown; eassumption|].
            intro E3. apply n. eapply Huq; [exact E | exact Eh | exact E3].
     + constructor; cbn [b_heap b_pool b_held w_after].
@@ -665,14 +654,14 @@ Proof.
         -- intro E. inversion E; subst. cbn. lia.
         -- apply Hcap.
       * intros t sl1 j. upd_cases t t0.
-        -- intros E Hj. inversion E; subst. cbn [sl_buf]. rewrite upd_same, Nat.eqb_refl.
+        -- intros E Hj. inversion E; subst. cbn [sl_buf]. rewrite ?upd_same.
            destruct (wr_zero_cases (rd (b_heap s (sl_buf sl)) 0 (sl_len sl) ++ data) j) as [H0|H0];
              [left; exact H0|].
            apply in_app_or in H0. destruct H0 as [H0|H0].
            ++ destruct (Hold sl _ eq_refl t0 Eh H0) as [H1|H1];
                 [left; exact H1 | right; apply in_or_app; left; exact H1].
            ++ right. apply in_or_app. right. exact H0.
-        -- intros E Hj. rewrite (proj2 (Nat.eqb_neq t0 t)) by congruence.
+        -- intros E Hj. rewrite ?(upd_other W t0 t) by assumption.
            rewrite upd_other; [eapply Hown; eassumption|]. apply Hlt in E. lia.
   - destruct (b_held s t0) as [sl|] eqn:Eh; [|discriminate].
     destruct (n <? sl_cap sl) eqn:Efit; inversion Hst; subst; clear Hst.
@@ -693,20 +682,51 @@ Proof.
            destruct (wr_zero_cases (rd (b_heap s (sl_buf sl)) 0 (sl_len sl)) j) as [H0|H0];
              [left; exact H0|].
            exact (Hold sl _ eq_refl t0 Eh H0).
-        -- intros E Hj. rewrite upd_other; [eapply Hown; eassumption|]. apply Hlt in E. lia.
+        -- intros E Hj. rewrite ?(upd_other W t0 t) by assumption. rewrite upd_other; [eapply Hown; eassumption|]. apply Hlt in E. lia.
+  - destruct (b_held s t0) as [sl|] eqn:Eh; [|discriminate].
+    destruct (b_held s t1) eqn:Eh1; [discriminate|].
+    destruct (t0 =? t1) eqn:E01; [discriminate|]. apply Nat.eqb_neq in E01.
+    destruct (n <? sl_cap sl) eqn:Efit; inversion Hst; subst; clear Hst.
+    + apply Nat.ltb_lt in Efit.
+      constructor; cbn [b_heap b_pool b_held w_after].
+      * intros t sl1. upd_cases t t0.
+        -- intro E. inversion E; subst. cbn. lia.
+        -- apply Hcap.
+      * intros t sl1 j E Hj.
+        assert (Hgoal : b_heap s (sl_buf sl1) j = 0%N \/ In (b_heap s (sl_buf sl1) j) (W t)).
+        { upd_cases t t0.
+          - inversion E; subst. cbn [sl_buf sl_cap] in *. eapply Hown; eassumption.
+          - eapply Hown; eassumption. }
+        destruct (Nat.eq_dec t t1) as [->|N1]; [|rewrite upd_other by exact N1; exact Hgoal].
+        exfalso. rewrite upd_other in E by congruence. congruence.
+    + constructor; cbn [b_heap b_pool b_held w_after].
+      * intros t sl1. destruct (Nat.eq_dec t t1) as [->|N1].
+        -- rewrite upd_same. intro E. inversion E; subst. eapply Hcap; exact Eh.
+        -- rewrite upd_other by exact N1. upd_cases t t0.
+           ++ intro E. inversion E; subst. cbn. lia.
+           ++ apply Hcap.
+      * intros t sl1 j. destruct (Nat.eq_dec t t1) as [->|N1].
+        -- rewrite !upd_same. intros E Hj. inversion E; subst.
+           rewrite upd_other; [eapply Hown; eassumption|]. pose proof (Hlt _ _ Eh). lia.
+        -- rewrite !(upd_other _ t1) by exact N1. upd_cases t t0.
+           ++ intros E Hj. inversion E; subst. cbn [sl_buf]. rewrite upd_same.
+              destruct (wr_zero_cases (rd (b_heap s (sl_buf sl)) 0 (sl_len sl)) j) as [H0|H0];
+                [left; exact H0|].
+              exact (Hold sl _ eq_refl t0 Eh H0).
+           ++ intros E Hj. rewrite upd_other; [eapply Hown; eassumption|]. apply Hlt in E. lia.
   - destruct (b_held s t0) as [sl|] eqn:Eh; [|discriminate].
     inversion Hst; subst; clear Hst.
     constructor; cbn [b_heap b_pool b_held w_after].
     + intros t sl1. upd_cases t t0; [discriminate | apply Hcap].
     + intros t sl1 j. upd_cases t t0; [discriminate|].
-      intros E Hj. rewrite (proj2 (Nat.eqb_neq t0 t)) by congruence. eapply Hown; eassumption.
+      intros E Hj. rewrite ?(upd_other W t0 t) by assumption. eapply Hown; eassumption.
 Qed.
 
 (* ownership alone is preserved by every step (no cleanliness / growth needed) *)
 Lemma bstep_binv mincap s e s' : BInv s -> bstep Fixed mincap s e = Some s' -> BInv s'.
 Proof.
   intros [Hlt Huq Hplt Hsep] Hst.
-  destruct e as [t0 capacity c|t0 data|t0 n|t0]; cbn [bstep] in Hst.
+  destruct e as [t0 capacity c|t0 data|t0 n|t0 t1 n|t0]; cbn [bstep] in Hst.
   - destruct (b_held s t0) eqn:Eh; [discriminate|].
     destruct (match c with Some b => find (has_buf b) (b_pool s) | None => None end) as [sl|] eqn:Ef;
       inversion Hst; subst; clear Hst.
@@ -785,6 +805,47 @@ Proof.
       * intros t sl1 sl2. upd_cases t t0; [|apply Hsep].
         intros E H0. inversion E; subst. cbn. apply Hplt in H0. lia.
   - destruct (b_held s t0) as [sl|] eqn:Eh; [|discriminate].
+    destruct (b_held s t1) eqn:Eh1; [discriminate|].
+    destruct (t0 =? t1) eqn:E01; [discriminate|]. apply Nat.eqb_neq in E01.
+    destruct (n <? sl_cap sl); inversion Hst; subst; clear Hst.
+    + constructor; cbn [b_heap b_pool b_next b_held].
+      * intros t sl0. upd_cases t t0; [|apply Hlt].
+        intro E. inversion E; subst. cbn. eapply Hlt; exact Eh.
+      * intros t t' sl1 sl2. upd_cases t t0; upd_cases t' t0; try reflexivity.
+        -- intros E1 E2 E3. inversion E1; subst. cbn in E3. eapply Huq; eassumption.
+        -- intros E1 E2 E3. inversion E2; subst. cbn in E3. eapply Huq; eassumption.
+        -- apply Huq.
+      * exact Hplt.
+      * intros t sl1 sl2. upd_cases t t0; [|apply Hsep].
+        intros E H0. inversion E; subst. cbn. eapply Hsep; eassumption.
+    + assert (Hheld : forall t slx, upd (upd (b_held s) t0 (Some (mkSl (b_next s) n (Nat.max n (2 * sl_cap sl))))) t1 (Some sl) t = Some slx ->
+                (t = t1 /\ slx = sl) \/ (t = t0 /\ t <> t1 /\ sl_buf slx = b_next s) \/ (t <> t0 /\ t <> t1 /\ b_held s t = Some slx)).
+      { intros t slx. destruct (Nat.eq_dec t t1) as [->|N1].
+        - rewrite upd_same. intro E. inversion E. left. split; reflexivity.
+        - rewrite upd_other by exact N1. destruct (Nat.eq_dec t t0) as [->|N0].
+          + rewrite upd_same. intro E. inversion E. right. left. repeat split; assumption.
+          + rewrite upd_other by exact N0. intro E. right. right. repeat split; assumption. }
+      constructor; cbn [b_heap b_pool b_next b_held].
+      * intros t slx E. destruct (Hheld t slx E) as [[-> ->]|[[-> [_ Eb]]|[_ [_ E']]]].
+        -- pose proof (Hlt _ _ Eh). lia.
+        -- lia.
+        -- apply Hlt in E'. lia.
+      * intros t t' sl1 sl2 E1 E2 E3.
+        destruct (Hheld t sl1 E1) as [[-> ->]|[[-> [N1 Eb1]]|[N0 [N1 E1']]]];
+          destruct (Hheld t' sl2 E2) as [[-> ->]|[[-> [N1' Eb2]]|[N0' [N1' E2']]]]; try reflexivity.
+        -- pose proof (Hlt _ _ Eh). lia.
+        -- exfalso. apply N0'. eapply Huq; [exact E2' | exact Eh | symmetry; exact E3].
+        -- pose proof (Hlt _ _ Eh). lia.
+        -- apply Hlt in E2'. lia.
+        -- exfalso. apply N0. eapply Huq; [exact E1' | exact Eh | exact E3].
+        -- apply Hlt in E1'. lia.
+        -- eapply Huq; eassumption.
+      * intros sl0 H0. apply Hplt in H0. lia.
+      * intros t slx sl2 E H0. destruct (Hheld t slx E) as [[-> ->]|[[-> [_ Eb]]|[_ [_ E']]]].
+        -- eapply Hsep; eassumption.
+        -- apply Hplt in H0. lia.
+        -- eapply Hsep; eassumption.
+  - destruct (b_held s t0) as [sl|] eqn:Eh; [|discriminate].
     inversion Hst; subst; clear Hst.
     constructor; cbn [b_heap b_pool b_next b_held].
     + intros t sl0. upd_cases t t0; [discriminate | apply Hlt].
@@ -797,17 +858,14 @@ Proof.
 Qed.
 
 Lemma brun_ownz mincap es : forall s s' (W : nat -> list N),
-  BInv s -> OwnZ W s -> brun Fixed mincap s es = Some s' ->
-  OwnZ (fun t => written t es (W t)) s'.
+  BInv s -> OwnZ W s -> brun Fixed mincap s es = Some s' -> OwnZ (written es W) s'.
 Proof.
-  induction es as [|e es IH]; intros s s' W I O H; cbn [brun] in H.
+  induction es as [|e es IH]; intros s s' W I O H; cbn [brun written] in *.
   - inversion H; subst. exact O.
   - destruct (bstep Fixed mincap s e) as [s1|] eqn:E; [|discriminate].
     pose proof (bstep_binv mincap s e s1 I E) as I1.
     pose proof (bstep_ownz mincap W s e s1 I O E) as O1.
-    pose proof (IH s1 s' _ I1 O1 H) as O2.
-    destruct O2 as [Hc Ho]. constructor; [exact Hc|].
-    intros t sl j Eh Hj. rewrite written_step. apply Ho; assumption.
+    exact (IH s1 s' _ I1 O1 H).
 Qed.
 
 Theorem byteslicepool_no_carry mincap : no_carry mincap.
@@ -824,7 +882,7 @@ Qed.
    its bytes behind the length Get cleared up to, and the next caller's Resize shows them *)
 Theorem byteslicepool_shrink_put_refuted :
   exists mincap es s, brun Original mincap (binit (fun _ _ => 0%N)) es = Some s /\
-                      visible s 1 = [0; 7; 7]%N /\ written 1 es [] = [].
+                      visible s 1 = [0; 7; 7]%N /\ written es (fun _ => []) 1 = [].
 Proof.
   exists 4, [BGet 0 8 None; BAppend 0 [7; 7; 7]%N; BResize 0 1; BPut 0; BGet 1 0 (Some 0); BResize 1 3].
   eexists. split; [vm_compute; reflexivity|]. split; vm_compute; reflexivity.
@@ -919,4 +977,25 @@ Theorem shared_scratch_refuted :
 Proof.
   exists [(0, HReset); (0, HWrite [1]%N); (1, HReset); (1, HWrite [2]%N); (0, HSum); (1, HSum)].
   vm_compute. discriminate.
+Qed.
+
+(* the defer idiom on the current tree: caller 0 grows past the capacity, keeps its original slice
+   (second name 5) and puts it back; callers 1 and 2 then take slices at once *)
+Example keep_idiom :
+  match brun Fixed 8 (binit (fun _ _ => 0%N))
+             [BGet 0 8 None; BAppend 0 [7; 7]%N; BResizeKeep 0 5 20; BPut 5; BGet 1 0 (Some 0);
+              BGet 2 0 (Some 0); BAppend 1 [1]%N; BAppend 2 [2]%N] with
+  | Some s => Some (visible s 0, visible s 1, visible s 2,
+                    option_map sl_buf (b_held s 1), option_map sl_buf (b_held s 2))
+  | None => None
+  end = Some ([7; 7; 0; 0; 0; 0; 0; 0; 0; 0; 0; 0; 0; 0; 0; 0; 0; 0; 0; 0]%N, [1]%N, [2]%N, Some 0, Some 2).
+Proof. vm_compute. reflexivity. Qed.
+
+(* a cache whose key and value are written separately: caller 2 asks for key 1 and gets 2 *)
+Theorem split_cache_refuted :
+  exists keys ts s, crun keys (mkC None None (fun _ => CStart)) ts = Some s /\
+                    keys 2 = 1%Z /\ c_pc s 2 = CRet 2%Z.
+Proof.
+  exists (fun t => if t =? 1 then 2%Z else 1%Z), [0; 0; 1; 1; 1; 0; 2; 2]. eexists.
+  split; [vm_compute; reflexivity|]. split; vm_compute; reflexivity.
 Qed.
